@@ -112,6 +112,13 @@ pub fn next_solution_or<'a>(sn: Rc<RefCell<SolutionNode<'a>>>)
         Some(_) => { return solution; },
     }
 
+    // If the first alternative executed a cut (!), this node's
+    // no_backtracking flag is now set, and the other alternatives must
+    // not be tried. (set_no_backtracking() writes the flag through a
+    // raw pointer, so it is read the same way.)
+    let cut = unsafe { (*sn.as_ptr()).no_backtracking };
+    if cut { return None; }
+
     match &sn_ref.operator_tail {
         None => { return None; },
         Some(tail) => {
